@@ -62,6 +62,7 @@ M = [
     ('interval-string-whole-seconds', 'streamz/core.py', "        interval = pd.Timedelta(interval).total_seconds()", "        interval = pd.Timedelta(interval).seconds", ['C13']),
     ('interval-numpy-int-as-nanoseconds', 'streamz/core.py', "        interval = interval.item()\n", "        import pandas as pd\n        interval = pd.Timedelta(interval).total_seconds()\n", ['C13']),
     ('kafka-default-reset-on-callers-dict', 'streamz/sources.py', "            self.consumer_params['auto.offset.reset'] = 'latest'", "            consumer_params['auto.offset.reset'] = 'latest'", ['C09']),
+    ('kafka-new-partitions-ignore-committed', 'streamz/sources.py', "                        self.positions.extend(tp.offset for tp in committed)", "                        self.positions.extend(-1001 for tp in committed)", ['C09']),
     ('gather-no-wait-downstream', 'streamz/dask.py', "        result2 = yield self._emit(result, metadata=metadata)", "        result2 = self._emit(result, metadata=metadata)", ['C20']),
 ]
 
